@@ -432,6 +432,9 @@ TFinal == /\ l <= Len(Log) /\ Ev.e = "Final" /\ (Ev.fdleak = 0 \/ act.pend # <<>
           \* counts (fewer are possible here: the driver's stand-in may take the name before the forked helper has
           \* executed the program, and the daemon then reaps the helper)
           /\ \A i \in 1..Len(Ev.stublog) : Ev.stublog[i].k <= SpawnCount(Ev.stublog[i].n)
+          \* with every connection still open and nobody asking anything the bus sleeps: it does not burn processor
+          \* time (more than a quarter of a window of silence would be a busy loop -- generous on a loaded machine)
+          /\ "idlecpu" \in DOMAIN Ev => Ev.idlecpu * 4 <= Ev.idlewin
           /\ UNCHANGED vars /\ UNCHANGED <<pos, cnt, sdone, gone, kicked, devs, skipd, carry, qfull>>
 
 TFirst == l = 1 /\ l' = 2 /\ UNCHANGED vars /\ UNCHANGED <<pos, cnt, sdone, gone, kicked, devs, skipd, carry, qfull>>
